@@ -384,8 +384,16 @@ def coloured_cuts_section(rep, rng, tier):
                 s.threadname(tid, text()[:31])
             elif k < 0.65:
                 s.gstring(tid, rng.randrange(0, 9), text()[:15])
-            elif k < 0.9:
+            elif k < 0.82:
                 s.syscall('BSC_open', tid, [0, 0, 0, 0], [0, 3, 0, 0], [(text(), rng.randrange(1, 1 << 30))])
+            elif k < 0.92:
+                # records that re-name the process of a thread later in the dump, with names of every length a string record
+                # can carry (a thread-map name cannot exceed 19 bytes, these can reach 32): a line printed earlier may not change
+                nm = (text() + 'x' * 32)[:rng.choice([1, 8, 19, 20, 27, 30, 31, 32])]
+                if rng.random() < 0.5:
+                    s.exec_(tid, rng.choice([42, 43, 77]), nm)
+                else:
+                    s.newthread(tid, rng.choice(tids), rng.choice([42, 43, 77]), nm)
             else:
                 s.ev('MACH_SCHED', 0, tid, [0, 1, 2, 3])
         recs = s.recs
